@@ -6,6 +6,8 @@
 cd "$(dirname "$0")/.."
 if [ -n "$(git -C /repo status --porcelain --untracked-files=no)" ]; then echo "selftest: /repo has uncommitted changes, refusing to run"; exit 2; fi
 fail=0
+RES=/verif/selftest/last_results.txt
+[ -z "$*" ] && : > $RES
 run() { # patch id
   p="$1"; id="$2"
   [ -f "packs/$id.json" ] || { echo "SKIP  $id $(basename $p) (no pack)"; return; }
@@ -14,7 +16,8 @@ run() { # patch id
   git -C /repo checkout -- . 
   n=$(echo "$out" | grep -c '^VIOLATION')
   r=$(echo "$out" | grep '^VIOLATION' | grep -vc 'no-failing-input-found')
-  if [ $rc -eq 1 ] && [ $n -gt 0 ]; then echo "CAUGHT $id $(basename $(dirname $p))/$(basename $p): $n violation(s), $r replayed on the real code"; else echo "MISSED $id $p (exit $rc)"; fail=1; fi
+  if [ $rc -eq 1 ] && [ $n -gt 0 ]; then line="CAUGHT $id $(basename $(dirname $p))/$(basename $p): $n violation(s), $r replayed on the real code"; else line="MISSED $id $(basename $(dirname $p))/$(basename $p) (exit $rc)"; fail=1; fi
+  echo "$line"; grep -v " $(basename $(dirname $p))/$(basename $p)" $RES > $RES.tmp 2>/dev/null; mv $RES.tmp $RES; echo "$line" >> $RES
 }
 want="$*"
 for p in /verif/selftest/mutants/*.patch; do id=$(basename "$p" | cut -d_ -f1); case " $want " in "  "|*" $id "*) run "$p" "$id";; esac; done
